@@ -111,5 +111,17 @@ fn is_go_keyword(s: &str) -> bool {
             | "import"
             | "return"
             | "var"
+            // Not keywords, but names the emitted program itself relies on: predeclared
+            // identifiers used by generated code and the runtime, the `fmt` import, the
+            // special `init` function and the renamed entry point.
+            // A user entity of that name would capture those uses (or be rejected by Go).
+            | "any"
+            | "append"
+            | "len"
+            | "nil"
+            | "panic"
+            | "fmt"
+            | "init"
+            | "main0"
     )
 }
